@@ -416,8 +416,9 @@ def run(tier):
     n = 16 if tier == 'quick' else 128
     per = 3 if tier == 'quick' else 5
     items = [dict(seed=common.seed(), lo=per*k, hi=per*k + per,
-                  flavour='plain', timeout=1800) for k in range(n)]
-    m = harness.execute('checks.c03', items, timeout=1800)
+                  flavour='plain', timeout=420) for k in range(n)]
+    # (a group that never stops iterating shows as a watchdog timeout)
+    m = harness.execute('checks.c03', items, timeout=420)
     v = common.Verdict(PROP)
     need = {'real', 'start_idx', 'stop_idx', 'iterate', 'condition', 'pre',
             'post', 'update_nnps', 'subgroups'}
